@@ -18,6 +18,8 @@ Definition unit_ns (m : Z) : Z :=
 Definition plain_mods : list Z := [0; 2; 4; 6; 8; 10; 12; 14].
 Definition option_mods : list Z := [1; 3; 5; 7; 9; 11; 13; 15].
 
+Ltac units := change (unit_ns 0) with 1000000000; change (unit_ns 1) with 1000000000; change (unit_ns 2) with 1000000; change (unit_ns 3) with 1000000; change (unit_ns 4) with 1000; change (unit_ns 5) with 1000; change (unit_ns 6) with 1; change (unit_ns 7) with 1; change (unit_ns 8) with 1000000000; change (unit_ns 9) with 1000000000; change (unit_ns 10) with 1000000; change (unit_ns 11) with 1000000; change (unit_ns 12) with 1000; change (unit_ns 13) with 1000; change (unit_ns 14) with 1; change (unit_ns 15) with 1.
+
 (** the reading of a visitor result: the date-time at instant [t], or invalid_ts(n) exactly when no
     date-time has that instant *)
 Definition read_spec (t n : Z) (r : sres ndt) : Prop :=
@@ -32,7 +34,7 @@ Proof.
   intros Hi. destruct (from_timestamp_split date_facts_hold t Hi) as [o [Ho Hs]].
   unfold or_invalid_ts. rewrite Ho. cbn [bind]. destruct o as [a|].
   - exists (SOk a). split; [reflexivity|]. destruct Hs as (Hv & Hl & Hi'). cbn [read_spec].
-    repeat split; try assumption; rewrite <- Hi'; apply (nonleap_instant_range date_facts_hold a Hv Hl).
+    split; [exact Hv|split; [exact Hl|split; [exact Hi'|rewrite <- Hi'; apply (nonleap_instant_range date_facts_hold a Hv Hl)]]].
   - exists (SErr (EInvalidTs n)). split; [reflexivity|]. split; [reflexivity|exact Hs].
 Qed.
 
@@ -86,9 +88,10 @@ Qed.
 Lemma visit_secs n : in_i64 n = true ->
   exists r, or_invalid_ts n (dt_from_timestamp n 0) = Val r /\ read_spec (n * 1000000000) n r.
 Proof.
-  intros Hi. replace n with ((n * 1000000000) / G) at 2 by (unfold G; lia).
-  replace 0 with ((n * 1000000000) mod G) at 2 by (unfold G; lia).
-  apply or_invalid_of_split. replace ((n * 1000000000) / G) with n by (unfold G; lia). exact Hi.
+  intros Hi. pose proof (or_invalid_of_split n (n * 1000000000)) as H.
+  replace ((n * 1000000000) / G) with n in H by (unfold G; lia).
+  replace ((n * 1000000000) mod G) with 0 in H by (unfold G; lia).
+  apply H. exact Hi.
 Qed.
 Lemma visit_millis n : in_i64 n = true ->
   exists r, or_invalid_ts n (dt_from_timestamp_millis n) = Val r /\ read_spec (n * 1000000) n r.
@@ -96,7 +99,7 @@ Proof.
   intros Hi. destruct (u_from_timestamp_millis_spec n Hi) as [o [Ho Hs]].
   unfold or_invalid_ts. rewrite Ho. cbn [bind]. destruct o as [a|].
   - exists (SOk a). split; [reflexivity|]. destruct Hs as (Hv & Hl & Hi'). cbn [read_spec].
-    repeat split; try assumption; rewrite <- Hi'; apply (nonleap_instant_range date_facts_hold a Hv Hl).
+    split; [exact Hv|split; [exact Hl|split; [exact Hi'|rewrite <- Hi'; apply (nonleap_instant_range date_facts_hold a Hv Hl)]]].
   - exists (SErr (EInvalidTs n)). split; [reflexivity|]. split; [reflexivity|exact Hs].
 Qed.
 Lemma visit_micros n : in_i64 n = true ->
@@ -105,7 +108,7 @@ Proof.
   intros Hi. destruct (u_from_timestamp_micros_spec n Hi) as [o [Ho Hs]].
   unfold or_invalid_ts. rewrite Ho. cbn [bind]. destruct o as [a|].
   - exists (SOk a). split; [reflexivity|]. destruct Hs as (Hv & Hl & Hi'). cbn [read_spec].
-    repeat split; try assumption; rewrite <- Hi'; apply (nonleap_instant_range date_facts_hold a Hv Hl).
+    split; [exact Hv|split; [exact Hl|split; [exact Hi'|rewrite <- Hi'; apply (nonleap_instant_range date_facts_hold a Hv Hl)]]].
   - exists (SErr (EInvalidTs n)). split; [reflexivity|]. split; [reflexivity|exact Hs].
 Qed.
 
@@ -214,7 +217,7 @@ Lemma accessor_spec u a : 0 <= u <= 3 -> valid_ndt a -> nonleap a ->
 Proof.
   intros Hu Hv Hl. pose proof (nonleap_instant_range date_facts_hold a Hv Hl) as Hr.
   assert (Hc : u = 0 \/ u = 1 \/ u = 2 \/ u = 3) by lia.
-  destruct Hc as [->|[->|[->|->]]]; unfold ts_accessor; cbn [Z.eqb Pos.eqb]; cbv zeta.
+  destruct Hc as [->|[->|[->| ->]]]; unfold ts_accessor; cbn [Z.eqb Pos.eqb]; cbv zeta.
   - rewrite (u_timestamp_floor a Hv Hl). cbn [bind]. unfold sok, G.
     replace (in_i64 (instant a / 1000000000)) with true by (symmetry; ranges; consts; lia). reflexivity.
   - rewrite (u_timestamp_millis_floor a Hv Hl). cbn [bind]. unfold sok.
@@ -254,7 +257,7 @@ Proof.
   intros Hm Hv Hl. pose proof (nonleap_instant_range date_facts_hold a Hv Hl) as Hr. unfold written. cbv zeta.
   unfold plain_mods, option_mods in Hm. cbn [In app] in Hm.
   destruct Hm as [<-|[<-|[<-|[<-|[<-|[<-|[<-|[<-|[<-|[<-|[<-|[<-|[<-|[<-|[<-|[<-|[]]]]]]]]]]]]]]]]];
-    cbn [unit_ns Z.modulo Z.div Z.eqb Pos.eqb andb]; cbv beta iota;
+    units; cbn [Z.eqb Pos.eqb andb]; cbv beta iota;
     match goal with
     | |- context [instant a / 1] => rewrite Z.div_1_r; destruct (in_i64 (instant a)); reflexivity
     | |- _ => idtac
@@ -270,7 +273,7 @@ Proof. unfold carry. destruct (fmt =? 0); reflexivity. Qed.
 
 Lemma floor_in_range t u : (u = 1000000000 \/ u = 1000000 \/ u = 1000 \/ u = 1) -> NS_MIN <= t <= NS_MAX ->
   NS_MIN <= t / u * u <= NS_MAX.
-Proof. intros Hu Hr. consts. destruct Hu as [->|[->|[->|->]]]; lia. Qed.
+Proof. intros Hu Hr. consts. destruct Hu as [->|[->|[->| ->]]]; lia. Qed.
 Lemma unit_cases m : In m (plain_mods ++ option_mods) ->
   unit_ns m = 1000000000 \/ unit_ns m = 1000000 \/ unit_ns m = 1000 \/ unit_ns m = 1.
 Proof.
@@ -342,7 +345,8 @@ Proof.
   - exists a. destruct Hs as (Hv & Hsec & Hf & _).
     assert (Hl : nonleap a) by (unfold nonleap, G; lia).
     assert (Hi : instant a = -1) by (rewrite instant_secs, Hsec, Hf; reflexivity).
-    repeat split; try assumption.
-    unfold written. rewrite Hi. reflexivity.
+    split; [exact Hr|split; [exact Hv|split; [exact Hl|split; [exact Hi|split]]]].
+    + unfold written. units. rewrite Hi. reflexivity.
+    + reflexivity.
   - exfalso. apply Hs. consts. lia.
 Qed.
